@@ -163,7 +163,7 @@ func genC16(t *Tape) (*SrvScenario, int) {
 			var r SrvReq
 			if ci == subject {
 				class := c16Classes[t.Pick(6, 4, 4, 4, 4, 1)]
-				mode := HandlerMode(t.Pick(4, 2, 1, 2, 2, 1))
+				mode := HandlerMode(t.Pick(4, 2, 1, 2, 2, 1, 2))
 				r = genC16Req(t, class, t.Choose(len(AllFCs)), byte(1+ci), tid)
 				r.Mode = mode
 				r.Code = []byte{4, 1, 2, 3, 6, 10}[t.Choose(6)]
@@ -261,6 +261,7 @@ func genC16(t *Tape) (*SrvScenario, int) {
 				sp.Gaps = append(sp.Gaps, time.Duration(1+t.Choose(20))*time.Millisecond)
 			}
 			sc.ReadTimeout = []time.Duration{0, time.Millisecond, 20 * time.Millisecond}[t.Choose(3)]
+			sc.TimeoutWithData, sc.OwnAssembler = t.Choose(6) == 5, t.Choose(4) == 0
 			sc.ReplyTimeout = 300 * time.Millisecond
 			sc.SharedHandlerErr = t.Choose(2) == 1
 			sc.StatelessDevice = true
@@ -272,6 +273,7 @@ func genC16(t *Tape) (*SrvScenario, int) {
 		sc.Conns[subject].StallAtReply = 1 + t.Choose(len(sc.Conns[subject].Reqs))
 	}
 	sc.ReadTimeout = []time.Duration{0, time.Millisecond, 20 * time.Millisecond}[t.Choose(3)]
+	sc.TimeoutWithData, sc.OwnAssembler = t.Choose(6) == 5, t.Choose(4) == 0
 	sc.ReplyTimeout = 300 * time.Millisecond
 	sc.SharedHandlerErr = t.Choose(2) == 1
 	sc.StatelessDevice = true // replies are then a pure function of the request: history independence is exactly checkable
